@@ -175,6 +175,9 @@ def is_ws(s):
 LEGAL = {"V": is_value, "SV": is_svalue, "B": is_btext, "BC": is_ctext, "K": is_key, "F": is_free, "W": is_ws}
 
 
+Q_SIGMA = '{}" x\\'
+
+
 class Builder:
     """accumulates the symbolic document; every character gets its own term"""
 
@@ -231,6 +234,26 @@ class Builder:
             self.hole("W", wl, W_SIGMA)
             self.lit("}")
         self.expect.append(("Entry", t, k, fields))
+
+    def qentry(self, n):
+        """@aa{k, f = "X"}: a quoted value whose body is symbolic over braces / quote / backslash / filler (deeper nesting
+        inside quotes than the general value hole affords)"""
+        self.lit("@")
+        t = (len(self.cs), len(self.cs) + 2)
+        self.lit("aa{")
+        k = (len(self.cs), len(self.cs) + 1)
+        self.lit("k, ")
+        fk = (len(self.cs), len(self.cs) + 1)
+        self.lit("f = ")
+        a = len(self.cs)
+        self.cs.append(self.eng.sym_char(f"t{len(self.cs)}", '"'))
+        for _ in range(n):
+            self.cs.append(self.eng.sym_char(f"t{len(self.cs)}", Q_SIGMA))
+        self.cs.append(self.eng.sym_char(f"t{len(self.cs)}", '"'))
+        v = (a, len(self.cs))
+        self.holes.append(("V", a, len(self.cs)))
+        self.lit("}")
+        self.expect.append(("Entry", t, k, [(fk, v)]))
 
     def string(self, kl=1, vl=2, wl=1, hw=0):
         self.lit("@")
